@@ -4,20 +4,20 @@
 # Prints one line per seeded change: caught (exit 1 + VIOLATION) / MISSED (exit 0) / ERROR.
 TIER="${1:-quick}"; shift
 IDS="$*"; [ -z "$IDS" ] && IDS="$(ls /verif/seeded)"
-mkdir -p /tmp/wtm
+mkdir -p /tmp/wtm; RUNID="r$$"
 run_one() {
   d="$1"; prop="$(echo "$d" | cut -d_ -f1)"; props="${PROPS:-$prop}"
-  WT="/tmp/wtm/$d"; rm -rf "$WT" "/tmp/wtm/out_$d"
+  WT="/tmp/wtm/${RUNID}_$d"; rm -rf "$WT" "/tmp/wtm/out_${RUNID}_$d"
   git -C /repo worktree add -q --detach "$WT" HEAD 2>/dev/null || { echo "$d: worktree failed"; return; }
   if ! git -C "$WT" apply "/verif/seeded/$d/patch.diff" 2>/dev/null; then echo "$d: PATCH-DOES-NOT-APPLY"; git -C /repo worktree remove --force "$WT"; return; fi
   for p in $props; do
-    mkdir -p "/tmp/wtm/out_$d"
-    ( cd /verif && VERIF_REPO="$WT" VERIF_OUT="/tmp/wtm/out_$d" timeout 3600 ./check "$p" --tier "$TIER" > "/tmp/wtm/$d.$p.log" 2>&1 ); rc=$?
-    clauses="$(grep -E '^  clause=' "/tmp/wtm/$d.$p.log" | sed 's/^  clause=\([A-Za-z._]*\).*/\1/' | sort -u | tr '\n' ' ')"
+    mkdir -p "/tmp/wtm/out_${RUNID}_$d"
+    ( cd /verif && VERIF_REPO="$WT" VERIF_OUT="/tmp/wtm/out_${RUNID}_$d" timeout 3600 ./check "$p" --tier "$TIER" > "/tmp/wtm/${RUNID}_$d.$p.log" 2>&1 ); rc=$?
+    clauses="$(grep -E '^  clause=' "/tmp/wtm/${RUNID}_$d.$p.log" | sed 's/^  clause=\([A-Za-z._]*\).*/\1/' | sort -u | tr '\n' ' ')"
     case $rc in 1) v=caught;; 0) v=MISSED;; *) v="ERROR($rc)";; esac
     echo "$d check=$p $v $clauses"
   done
-  git -C /repo worktree remove --force "$WT"; rm -rf "/tmp/wtm/out_$d"
+  git -C /repo worktree remove --force "$WT"; rm -rf "/tmp/wtm/out_${RUNID}_$d"
 }
 N=0
 for d in $IDS; do
